@@ -950,6 +950,40 @@ void execRoundTrip(const Plan& p, Ctx& c)
   c.end(0, Digest().hex());
   int mode = (int)rop->I(0);
   c.fp(cn + "/" + std::to_string(mode));
+  if (mode == 5)
+  {
+    // history of saves in one process: a sibling object is written first (for the Db family: the same table with one
+    // column deleted and another appended, i.e. same column count, other identifiers), then the observed one
+    std::unique_ptr<ASerializable> sib;
+    if (Db* dbo = dynamic_cast<Db*>(m.obj.get()))
+    {
+      Db* cp = dbo->clone();
+      if (cp->getColumnNumber() > 1)
+      {
+        cp->deleteColumnByColIdx(cp->getColumnNumber() / 2);
+        cp->addColumnsByConstant(1, 4.25, "sibling");
+      }
+      sib.reset(cp);
+      // the observed object itself is the edited one half of the time
+      if (rop->I(1) % 2 == 0) { std::swap(sib, m.obj); }
+    }
+    else
+    {
+      Op o2 = *oop;
+      o2.i[0] = oop->I(0) + 1;
+      Made other = makeObject(o2, bufsz);
+      if (other.ok) sib = std::move(other.obj);
+    }
+    if (sib)
+    {
+      std::string sb;
+      std::vector<std::pair<size_t, size_t>> sev;
+      writeObject(sib.get(), bufsz, sb, sev);
+      c.count("fault.sibling-saved-first");
+    }
+    if (!writeObject(m.obj.get(), bufsz, m.body, m.events)) { c.violation(P + "write-failed|" + cn, "serialize returned false after a sibling save"); return; }
+    mode = 0;
+  }
   Desc d0, p0;
   try
   {
@@ -1159,7 +1193,7 @@ struct StoreC08 : Workload
     Op t;
     t.kind = "roundtrip";
     double u = r.unit();
-    t.i = {u < 0.45 ? 0 : u < 0.65 ? 1 : u < 0.85 ? 2 : u < 0.9 ? 3 : 4, r.range(0, 9)};
+    t.i = {u < 0.35 ? 0 : u < 0.5 ? 1 : u < 0.65 ? 2 : u < 0.7 ? 3 : u < 0.8 ? 4 : 5, r.range(0, 9)};
     p.ops = {o, t};
     static const long bs[] = {1, 7, 64, 4096};
     p.setKnob("bufsz", bs[r.below(4)]);
